@@ -551,7 +551,11 @@ def resolve_strategy_inline_recurse(path, base, decisions):
         if not d.conflict:
             decisions.decisions.append(d)
             continue
-        assert d.local_diff and d.remote_diff
+        if not (d.local_diff and d.remote_diff):
+            # E.g. conflicts recorded below a cell deleted on one side,
+            # nothing to inline at the cell level
+            decisions.decisions.append(d)
+            continue
         laname, lpname = chunk_typename(d.local_diff)
         raname, rpname = chunk_typename(d.remote_diff)
         chunktype = laname + lpname + "/" + raname + rpname
